@@ -90,20 +90,40 @@ def _assigned_exitcode(body, codes):
     return found
 
 
-def _verdict(fn, codes):
-    chain = None
+def _calls(node, dotted):
+    return isinstance(node, ast.Call) and ast.unparse(node.func) == dotted
+
+
+def _inline(node, defs, depth=0):
+    """replace local temporaries (single-assignment names of the loop body) by their definitions"""
+    class I(ast.NodeTransformer):
+        def visit_Name(self, n):
+            if isinstance(n.ctx, ast.Load) and n.id in defs and depth < 6:
+                return _inline(ast.parse(defs[n.id], mode="eval").body, defs, depth + 1)
+            return n
+    return I().visit(node)
+
+
+def _verdict(fn, codes, normal_name, stuck_name):
+    # counter = Counter(str(m.result) for m in ctx.solver_outputs): the name is free
+    counter = None
     for n in _walk_no_nested_defs(fn):
-        if isinstance(n, ast.If) and ast.unparse(n.test) == "counter['sat'] > 0":
+        if isinstance(n, ast.Assign) and len(n.targets) == 1 and isinstance(n.targets[0], ast.Name) and ast.unparse(n.value) == "Counter((str(m.result) for m in ctx.solver_outputs))":
+            if counter is not None:
+                raise TranslateError("verdict chain: two solver-answer counters")
+            counter = n.targets[0].id
+    if counter is None:
+        raise TranslateError("verdict chain: `<c> = Counter(str(m.result) for m in ctx.solver_outputs)` not found")
+    chain = None
+    for st in fn.body:
+        if isinstance(st, ast.If) and any(isinstance(n, ast.Subscript) and isinstance(n.value, ast.Name) and n.value.id == counter for n in ast.walk(st.test)):
             if chain is not None:
                 raise TranslateError("verdict chain: found twice")
-            chain = n
+            chain = st
     if chain is None:
-        raise TranslateError("verdict chain (if counter['sat'] > 0 ...) not found")
-    # the counter must count the string form of the results of all solver outputs
-    ok = any(isinstance(n, ast.Assign) and ast.unparse(n) == "counter = Counter((str(m.result) for m in ctx.solver_outputs))" for n in _walk_no_nested_defs(fn))
-    if not ok:
-        raise TranslateError("verdict chain: `counter = Counter(str(m.result) for m in ctx.solver_outputs)` not found")
-    table = {"counter['sat']": "n_sat", "counter['err']": "n_err", "counter['unknown']": "n_unknown", "len(stuck)": "n_stuck"}
+        raise TranslateError("verdict chain (if <counter>[...] ...) not found at the top level of run_test")
+    table = {f"{counter}['sat']": "n_sat", f"{counter}['err']": "n_err", f"{counter}['unknown']": "n_unknown",
+             f"len({stuck_name})": "n_stuck", normal_name: "normal"}
     tr = Translator(names={"n_sat": "n_sat", "n_err": "n_err", "n_unknown": "n_unknown", "n_stuck": "n_stuck", "normal": "normal"})
 
     def go(node):
@@ -124,8 +144,9 @@ def _contains(body, pred):
     return any(pred(n) for st in body for n in _walk_no_nested_defs(st))
 
 
-def _is_aug(n, name):
-    return isinstance(n, ast.AugAssign) and isinstance(n.op, ast.Add) and isinstance(n.target, ast.Name) and n.target.id == name and ast.unparse(n.value) == "1"
+def _aug_names(body):
+    return [n.target.id for st in body for n in _walk_no_nested_defs(st)
+            if isinstance(n, ast.AugAssign) and isinstance(n.op, ast.Add) and isinstance(n.target, ast.Name) and ast.unparse(n.value) == "1"]
 
 
 def _classification(fn):
@@ -140,62 +161,80 @@ def _classification(fn):
     width = None
     for st in loop.body:
         if isinstance(st, ast.Assign) and len(st.targets) == 1 and isinstance(st.targets[0], ast.Name):
+            if st.targets[0].id in defs:
+                raise TranslateError(f"run_test: {st.targets[0].id} assigned twice in the loop body")
             defs[st.targets[0].id] = ast.unparse(st.value)
-        if isinstance(st, ast.If) and _contains(st.body, lambda n: _is_aug(n, "potential")):
+        if isinstance(st, ast.If) and _contains(st.body, lambda n: _calls(n, "handler.handle_assertion_violation")):
             chain = st
         if isinstance(st, ast.If) and "args.width" in ast.unparse(st.test):
             width = st
     if chain is None:
-        raise TranslateError("run_test: classification chain (the if that increments `potential`) not found")
-    if defs.get("panic_found") != "ex.is_panic_of(args.panic_error_codes)":
-        raise TranslateError(f"run_test: panic_found = {defs.get('panic_found')!r}")
-    if defs.get("output") != "ex.context.output" or defs.get("error_output") != "output.error":
-        raise TranslateError("run_test: output / error_output definitions changed")
-    table = {"is_global_fail_set(ex.context)": "fail_set", "ex.context.is_stuck()": "is_stuck", "error_output": "has_error"}
+        raise TranslateError("run_test: classification chain (the if that calls handle_assertion_violation) not found")
+    # roles of the observations, whatever the local temporaries are called
+    table = {"ex.is_panic_of(args.panic_error_codes)": "panic_found", "is_global_fail_set(ex.context)": "fail_set",
+             "ex.context.is_stuck()": "is_stuck", "ex.context.output.error": "has_error"}
     tr = Translator(bool_names={"panic_found", "fail_set", "is_stuck", "has_error"})
+    # the argument handed to the counterexample handler must be the same observation
+    for n in _walk_no_nested_defs(chain):
+        if _calls(n, "handler.handle_assertion_violation"):
+            kw = {k.arg: ast.unparse(_inline(k.value, defs)) for k in n.keywords}
+            if kw.get("ex") != "ex" or kw.get("panic_found") != "ex.is_panic_of(args.panic_error_codes)":
+                raise TranslateError(f"run_test: handle_assertion_violation called with {kw}")
     arms = []  # (cond, class)
     node = chain
     stuck_filter = None
+    normal_name = stuck_name = None
     while True:
-        cond = _truthy(tr, _Sub(table).visit(node.test))
-        if _contains(node.body, lambda n: _is_aug(n, "potential")):
-            if not _contains(node.body, lambda n: isinstance(n, ast.Call) and ast.unparse(n.func) == "handler.handle_assertion_violation"):
-                raise TranslateError("run_test: the potential arm no longer calls handle_assertion_violation")
+        cond = _truthy(tr, _Sub(table).visit(_inline(node.test, defs)))
+        if _contains(node.body, lambda n: _calls(n, "handler.handle_assertion_violation")):
             arms.append((cond, "potential"))
-        elif _contains(node.body, lambda n: isinstance(n, ast.Call) and ast.unparse(n.func) == "stuck.append"):
-            inner = [n for st in node.body for n in _walk_no_nested_defs(st) if isinstance(n, ast.If) and _contains(n.body, lambda m: isinstance(m, ast.Call) and ast.unparse(m.func) == "stuck.append")]
+        elif _contains(node.body, lambda n: _calls(n, "solve_low_level")):
+            inner = [n for st in node.body for n in _walk_no_nested_defs(st)
+                     if isinstance(n, ast.If) and _contains(n.body, lambda m: isinstance(m, ast.Call) and isinstance(m.func, ast.Attribute) and m.func.attr == "append")]
             if len(inner) != 1 or inner[0].orelse:
-                raise TranslateError("run_test: stuck arm: expected one `if <solver answer>: stuck.append(...)`")
-            if not _contains(node.body, lambda n: isinstance(n, ast.Assign) and ast.unparse(n) == "solver_output = solve_low_level(path_ctx)"):
-                raise TranslateError("run_test: stuck arm: solver_output = solve_low_level(path_ctx) not found")
+                raise TranslateError("run_test: stuck arm: expected one `if <solver answer>: <stuck>.append(...)`")
+            apps = [m for st in inner[0].body for m in _walk_no_nested_defs(st) if isinstance(m, ast.Call) and isinstance(m.func, ast.Attribute) and m.func.attr == "append" and isinstance(m.func.value, ast.Name)]
+            if len(apps) != 1:
+                raise TranslateError("run_test: stuck arm: expected exactly one append")
+            stuck_name = apps[0].func.value.id
+            local = {}
+            for st in node.body:
+                if isinstance(st, ast.Assign) and len(st.targets) == 1 and isinstance(st.targets[0], ast.Name):
+                    local[st.targets[0].id] = ast.unparse(st.value)
+            test = _inline(inner[0].test, {k: v for k, v in local.items() if v.startswith("solve_low_level(")})
             t2 = Translator(names={"r": "r"}, consts={"unsat": 0, "sat": 1, "unknown": 2})
-            stuck_filter = _truthy(t2, _Sub({"solver_output.result": "r"}).visit(inner[0].test))
+            sub = {src: "r" for src in {ast.unparse(n) for n in ast.walk(test) if isinstance(n, ast.Attribute) and n.attr == "result" and _calls(n.value, "solve_low_level")}}
+            if not sub:
+                raise TranslateError("run_test: stuck arm: the filter does not look at solve_low_level(...).result")
+            stuck_filter = _truthy(t2, _Sub(sub).visit(test))
             arms.append((cond, "stuck"))
-        elif _contains(node.body, lambda n: _is_aug(n, "normal")):
-            arms.append((cond, "normal"))
         else:
-            raise TranslateError(f"run_test: unrecognised classification arm {ast.unparse(node.test)}")
+            names = _aug_names(node.body)
+            if len(names) != 1:
+                raise TranslateError(f"run_test: unrecognised classification arm {ast.unparse(node.test)}")
+            normal_name = names[0]
+            arms.append((cond, "normal"))
         if len(node.orelse) == 1 and isinstance(node.orelse[0], ast.If):
             node = node.orelse[0]
             continue
         if node.orelse:
             raise TranslateError("run_test: classification chain has a final else")
         break
-    if stuck_filter is None:
-        raise TranslateError("run_test: stuck arm not found")
+    if stuck_filter is None or normal_name is None:
+        raise TranslateError("run_test: stuck / normal arm not found")
     text = str(CLASS_NAMES["ignored"])
     for cond, cls in reversed(arms):
         text = f"(if {cond} then {CLASS_NAMES[cls]} else {text})"
     # width cut
     if width is None or width.orelse:
         raise TranslateError("run_test: --width cut not found")
-    if not (_contains(width.body, lambda n: isinstance(n, ast.Break)) and _contains(width.body, lambda n: isinstance(n, ast.Call) and ast.unparse(n.func) == "warn")):
+    if not (_contains(width.body, lambda n: isinstance(n, ast.Break)) and _contains(width.body, lambda n: _calls(n, "warn"))):
         raise TranslateError("run_test: --width cut must warn and break")
     if loop.body.index(width) < loop.body.index(chain):
         raise TranslateError("run_test: --width cut now precedes the classification of the path")
     tw = Translator(names={"width": "width", "path_id": "path_id"})
     wtext = _truthy(tw, _Sub({"args.width": "width"}).visit(width.test))
-    return text, stuck_filter, wtext
+    return text, stuck_filter, wtext, normal_name, stuck_name
 
 
 def _warns_loop_bound(fn, logs_expr):
@@ -217,11 +256,10 @@ def translate(src_text):
     run_test = find_function(tree, "run_test")
     setup = find_function(tree, "setup")
     target = find_function(tree, "run_target_function")
-    verdict = _verdict(run_test, codes)
-    classify, stuck_filter, width = _classification(run_test)
-    if not any(isinstance(st, ast.Assign) and ast.unparse(st) == "logs = sevm.logs" for st in run_test.body):
-        raise TranslateError("run_test: `logs = sevm.logs` not found")
-    test_warns = _warns_loop_bound(run_test, "logs")
+    classify, stuck_filter, width, normal_name, stuck_name = _classification(run_test)
+    verdict = _verdict(run_test, codes, normal_name, stuck_name)
+    logs_names = [st.targets[0].id for st in run_test.body if isinstance(st, ast.Assign) and len(st.targets) == 1 and isinstance(st.targets[0], ast.Name) and ast.unparse(st.value) == "sevm.logs"]
+    test_warns = any(_warns_loop_bound(run_test, x) for x in logs_names + ["sevm.logs"])
     setup_warns = _warns_loop_bound(setup, "sevm.logs")
     target_warns = _mentions(target, "bounded_loops") or _mentions(target, "logs")
     info = {"exitcodes": codes, "test_warns": test_warns, "setup_warns": setup_warns, "target_warns": target_warns}
